@@ -6,6 +6,8 @@ import (
 	"fmt"
 	"math"
 
+	"github.com/flowmatters/openwater-core/data"
+	"github.com/flowmatters/openwater-core/data/cdata"
 	"verif/core"
 )
 
@@ -24,8 +26,9 @@ func init() {
 			"bit-exact comparison: same kernel, same floating-point operations",
 		},
 		Workloads: []core.Workload{
-			{Name: "main", Variant: "plain", N: core.Tiered(41*14, 41*7*4*2*3), Run: c04Main},
-			{Name: "initstates", Variant: "plain", N: core.Tiered(60, 600), Run: c04InitStates},
+			{Name: "main", Variant: "plain", N: core.Tiered(41*14, 41*7*4*2*12), Run: c04Main},
+			{Name: "initstates", Variant: "plain", N: core.Tiered(60, 3000), Run: c04InitStates},
+			{Name: "cbacked", Variant: "plain", N: core.Tiered(41*3, 41*60), Run: c04CBacked},
 		},
 	})
 }
@@ -219,4 +222,100 @@ func widthOf(a [][]float64) int {
 		return 0
 	}
 	return len(a[0])
+}
+
+// c04CBacked: the same N-cell run on C-backed arrays (caller-owned C memory behind guard pages /
+// canaries) must equal the Go-backed run bit-for-bit and stay inside the buffers.
+func c04CBacked(c *core.Ctx) {
+	names := ModelNames()
+	model := names[c.Idx%len(names)]
+	sh := c04Shapes[c.R.Intn(len(c04Shapes))]
+	N, P, B := sh[0], sh[1], sh[2]
+	T := c04Ts[c.R.Intn(len(c04Ts))]
+	wc := 0
+	if needsWidthClass(model) {
+		wc = 1 + c.R.Intn(13)
+	}
+	run := GenRun(model, c.R, N, P, B, T, wc)
+	if c.R.Bool(0.5) {
+		run.PadCells, run.PadT = c.R.IntRange(0, 2), c.R.IntRange(0, 3)
+	}
+	mode := []string{"guard-after", "guard-before", "malloc"}[c.Idx%3]
+	c.Begin(map[string]interface{}{"model": model, "run": run, "c_allocation": mode})
+	c.Class(fmt.Sprintf("cbacked/%s/%d-%d-%d/T%d/%s", model, N, P, B, T, mode))
+	ref, err := Prepare(run)
+	if err != nil {
+		c.Violate("prepare", model, err.Error())
+		return
+	}
+	states0 := From2(ref.States)
+	refOut := ref.Exec()
+	// C-backed copies of all four arrays
+	var bufs []*CBuf
+	defer func() {
+		for _, b := range bufs {
+			b.Free()
+		}
+	}()
+	toC := func(vals []float64, dims []int) data.NDFloat64 {
+		cb := AllocC(len(vals)*8, mode)
+		bufs = append(bufs, cb)
+		copy(CSlice[float64](cb, len(vals)), vals)
+		return cdata.NewFloat64CArray(cb.Ptr, dims)
+	}
+	m := NewModel(model)
+	prm := FlattenParams(ref.Desc, run.Sets)
+	pArr := toC(flatten2(prm), []int{len(prm), len(run.Sets)}).(data.ND2Float64)
+	dims := m.FindDimensions(pArr)
+	if len(dims) > 0 {
+		m.InitialiseDimensions(dims)
+	}
+	m.ApplyParameters(pArr)
+	nst := 0
+	if len(states0) > 0 {
+		nst = len(states0[0])
+	}
+	sArr := toC(flatten2(states0), []int{N, nst}).(data.ND2Float64)
+	iArr := toC(flatten3(run.Inputs), []int{B, len(ref.Desc.Inputs), T}).(data.ND3Float64)
+	oDims := []int{N + run.PadCells, len(ref.Desc.Outputs), T + run.PadT}
+	oArr := toC(make([]float64, prod(oDims)), oDims).(data.ND3Float64)
+	m.Run(iArr, sArr, oArr)
+	for _, b := range bufs {
+		if !b.CanaryIntact() {
+			c.Violate("canary", model, "bytes outside a caller-owned C buffer were modified by Run")
+		}
+	}
+	// compare
+	for i := 0; i < oDims[0]; i++ {
+		for j := 0; j < oDims[1]; j++ {
+			for k := 0; k < oDims[2]; k++ {
+				got := oArr.Get3(i, j, k)
+				want := 0.0
+				if i < N && k < T {
+					want = refOut.Out[i][j][k]
+				}
+				if !core.BitEq(got, want) && !(math.IsNaN(got) && math.IsNaN(want)) {
+					c.Violate("c-backed-output-differs", model, fmt.Sprintf("outputs[%d][%d][%d] on C-backed arrays = %v, on Go-backed arrays %v (array shape %v, run %dx%d)", i, j, k, got, want, oDims, N, T))
+					return
+				}
+			}
+		}
+	}
+	for i := 0; i < N; i++ {
+		for j := 0; j < nst; j++ {
+			got, want := sArr.Get2(i, j), refOut.States[i][j]
+			if !core.BitEq(got, want) && !(math.IsNaN(got) && math.IsNaN(want)) {
+				c.Violate("c-backed-state-differs", model, fmt.Sprintf("states[%d][%d] on C-backed arrays = %v, on Go-backed arrays %v", i, j, got, want))
+				return
+			}
+		}
+	}
+	// inputs and parameters untouched
+	if i := core.SameSlice(CSlice[float64](bufs[2], len(flatten3(run.Inputs))), flatten3(run.Inputs)); i >= 0 {
+		c.Violate("inputs-modified", model, fmt.Sprintf("C-backed input buffer modified at %d", i))
+	}
+	if i := core.SameSlice(CSlice[float64](bufs[0], len(flatten2(prm))), flatten2(prm)); i >= 0 {
+		c.Violate("params-modified", model, fmt.Sprintf("C-backed parameter buffer modified at %d", i))
+	}
+	c.Count("c_backed_runs", 1)
 }
